@@ -10,7 +10,7 @@
    `parse` (Syntax/Parser.v) = the model of numbat's parser on a token list. *)
 From Coq Require Import List NArith ZArith Bool.
 From NV Require Import Syntax.Token Syntax.Ast Syntax.Parser Syntax.Grammar
-     Syntax.ParserProofs Syntax.GrammarProofs Syntax.OpTableCheck Gen.OpTable.
+     Syntax.ParserProofs Syntax.GrammarProofs Syntax.OpTableCheck Syntax.LexTable Gen.OpTable.
 Import ListNotations.
 
 (* Every well-formed derivation tree, of any size and nesting depth, is read back as exactly
@@ -44,6 +44,20 @@ Theorem C10_optable :
   /\ power_start_tokens = model_power_start /\ keywords_ok = true /\ subscript_block_ok = true.
 Proof. exact optable_matches. Qed.
 Print Assumptions C10_optable.
+
+(* Lexer model, finite tables: every documented operator / keyword spelling (ASCII and Unicode) is one
+   token of the documented kind — alone, between identifiers, and (symbolic ones) without any space,
+   e.g. `x→y` is three tokens; every unicode exponent ¹…⁹, ⁻¹…⁻⁹ has its value; the documented number
+   forms (underscores, fraction, exponent, leading/trailing dot, hex/octal/binary) are one literal token
+   and the malformed ones (`1_`, `1._5`, `1e+`, `1..`, `0x`, `0b2` …) are lexical errors. *)
+Theorem C10_lex_tables :
+  forallb spelling_ok spellings = true /\ forallb tight_ok spellings = true
+  /\ forallb exponent_ok exponents = true
+  /\ forallb (fun s => lexes_to s [TNumber s]) numbers_accepted = true
+  /\ forallb lex_fails numbers_rejected = true
+  /\ forallb (fun p => lexes_to (fst p) [TIntBase (snd p) (fst p)]) based_accepted = true.
+Proof. exact lex_tables. Qed.
+Print Assumptions C10_lex_tables.
 
 (* NOT PROVED (partial): soundness — whatever the parser accepts is the print of a
    well-formed derivation tree and denotes it.  Rejection of inputs outside the grammar
